@@ -351,14 +351,15 @@ def enumerate_cases(tier):
             yield {"sources": ["raw_graph"], "targets": ["target_classes"], "all_classes": False, "format": "nt", "compression": None, "examples": ex, "or": o}
     # (D) near-miss unknown values: the single representative 'bogus' cannot tell a membership test from a substring / prefix /
     # case-insensitive test, so every argument with a closed vocabulary is also probed with strings derived from the valid ones
-    for fmt in near_misses(FORMATS[:-1]):
+    # None is 'no compression' / 'no examples' for those two arguments, but it names no input or output format
+    for fmt in list(near_misses(FORMATS[:-1])) + [None]:
         yield dict(base, sources=["raw_graph"], targets=[], all_classes=True, format=fmt)
     for comp in near_misses(["gz", "zip", "xz"]):
         yield dict(base, sources=["graph_file_input"], targets=[], all_classes=True, compression=comp)
     for ex in near_misses(["shape", "cons", "all"]):
         yield dict(base, sources=["raw_graph"], targets=[], all_classes=True, examples=ex)
-    for fmt in near_misses(["ShEx", "Shacl"]):
-        for sink in ("string", "file"):
+    for fmt in list(near_misses(["ShEx", "Shacl"])) + [None]:
+        for sink in ("string", "file", "uml"):
             yield dict(base, sources=["raw_graph"], targets=[], all_classes=True, call={"thr": 0, "fmt": fmt, "sink": sink})
     for thr in (-1e-9, -1e-300, 1 + 1e-9, 1.0000000000000002, 2, -1, 1e-300, 1 - 1e-16, 0.0, 1.0):
         yield dict(base, sources=["raw_graph"], targets=[], all_classes=True, call={"thr": thr, "fmt": "ShEx", "sink": "string"})
